@@ -44,6 +44,10 @@ def run(ctx):
                  workers=8, label="mc", timeout=3000)
     ctx.require_ok(mc, "MC_ZoneStore_c09")
     ctx.require_actions(mc, ACTIONS)
+    if thorough:
+        # two successive versions (1 reader, 2 writers)
+        deep = ctx.tlc("MC_ZoneStore", "MC_ZoneStore_c09_deep", workers=8, label="mc-deep", timeout=3000)
+        ctx.require_ok(deep, "MC_ZoneStore_c09_deep")
     ctx.exhaustive_flags.append(True)
     # 2. today's code (all deviations in force): versions are immutable, writers
     #    serialised, walk = version, visibility atomic, and node creation is the
